@@ -1,5 +1,6 @@
 (* C08 - malformed input fails cleanly: only library errors, always terminates.  Statements only. *)
-From PV Require Import Base.Bytes Model.Proc Model.Types Model.Enc Model.Dec Proofs.ProcSim Proofs.Total.
+From PV Require Import Base.Bytes Model.Proc Model.Types Model.Enc Model.Dec Model.Obs Proofs.ProcSim Proofs.Total
+     Proofs.NeverCrashes Proofs.NeverStarves Proofs.FailsCleanly.
 Local Open Scope nat_scope.
 
 (* Termination is by construction (every model function is structurally recursive on the type or on
@@ -25,3 +26,35 @@ Example C08_nonvacuous :
   /\ decode_with BER 20 (Some TInt) [2%N; 132%N; 255%N; 255%N; 255%N; 255%N] = Err EEndOfStream
   /\ is_library EMalformed = true /\ is_library EEndOfStream = true.
 Proof. repeat split; vm_compute; reflexivity. Qed.
+
+(* THE property on the model, for EVERY byte string, every decoder, with or without a guiding type (no
+   well-formedness of the guiding type is needed): the outcome is a value object (never noValue, None
+   or a bare octets object) with a strictly shorter remainder, or a LIBRARY error.  In the model a
+   built-in exception of the implementation is the explicit outcome Err (ECrash k) at every place where
+   the Python code performs an unguarded partial operation, non-termination is Err EOutOfFuel.  Neither
+   is reachable.  (EUnmodelled: the model declines - decimal REAL, text codecs it does not cover; the
+   harness counts those cases separately and decides them on the implementation alone.) *)
+Theorem C08_fails_cleanly : forall c sp b,
+  match decode c sp b with
+  | Ok (d, tl) => is_value d /\ length tl < length b
+  | Err e => is_library e = true \/ e = EUnmodelled
+  end.
+Proof. exact FAILS_CLEANLY. Qed.
+Print Assumptions C08_fails_cleanly.
+
+(* no built-in exception: every crash site of the model is unreachable, whatever the fuel *)
+Theorem C08_never_crashes : forall c fuel sp b r, decode_with c fuel sp b = r ->
+  match r with Err (ECrash _) => False | _ => True end.
+Proof. exact NO_CRASH. Qed.
+Print Assumptions C08_never_crashes.
+
+(* always terminates: the decoder's own fuel never runs out, and any fuel of at least twice the
+   input length plus twice the depth of the guiding type suffices - every loop iteration consumes input *)
+Theorem C08_never_starves : forall c sp b, decode c sp b <> Err EOutOfFuel.
+Proof. exact NO_STARVATION. Qed.
+Print Assumptions C08_never_starves.
+
+Theorem C08_fuel_bound : forall c fuel sp b, 2 * length b + 2 * odepth sp <= fuel ->
+  decode_with c fuel sp b <> Err EOutOfFuel.
+Proof. exact decode_with_never_starves. Qed.
+Print Assumptions C08_fuel_bound.
